@@ -40,6 +40,17 @@ def make_group(rng, with_time, size=36, dom_max=28):
         d = rng.randrange(1, dom_max + 1)
         if d <= cal.mdays(y, m):
             break
+    k = rng.random()
+    if k < .2:
+        # last day of February: where month lengths differ a borrowed day matters
+        m, d = 2, min(dom_max, cal.mdays(y, 2))
+    elif k < .3:
+        # Sunday of the last ISO week of a year (when its day-of-month qualifies)
+        o = date(y, 12, 28).toordinal()
+        o += 6 - (o - 1) % 7
+        dd = date.fromordinal(o)
+        if dd.day <= dom_max and 1601 <= dd.year <= 4095:
+            y, m, d = dd.year, dd.month, dd.day
     c = ep(date(y, m, d).toordinal(), rng.choice([0, 1, 43200, 86399, rng.randrange(86400)]) if with_time else 0)
     out = {c}
     offs_d = list(range(-9, 10)) + [-40, -31, -30, -29, -28, 27, 28, 29, 30, 31, 59, 60, 61, 365, 366, 367, -365, -366,
